@@ -57,6 +57,14 @@ CHECKS = {
          "Machine-checked proof: readBody_escBody / readString_quote (quote round trip for every string), readValue_quote, string_valid, bool_valid, int32_valid (str(int) is a JSON number token read back digit for digit), null_is_none; witnesses for D-C10a,b. Partial: object shapes (NodeId, LocalizedText, Variant, lists, extension objects) are decided by the correspondence (emitted text equals the model's) plus the shape/content oracle on the real output with json.loads. Tie: ~2 000 values per quick run, JsonLite vs Python json on emitted and mutated texts.",
          "Trusted: Lean kernel, CPython str(float) tokens, Python json as oracle, driver, harness. Recorded findings D-C10a..e.",
          "DESIGN.md section 3 C10"),
+ "C11": ("Lean 4 theorems about a hand model of __validate_referenced_nodes_exists / missing_nodes and the *_by_browsename look-ups + differential correspondence against /repo",
+         "Machine-checked proof: build_ok_iff_closed (the check passes iff every reference has a defined source and target), error_lists_exactly (sources first; exactly the references with a missing source, else exactly those with a missing target), lookup_unique, lookup_error_is_valueError, mem_candidates. Tie: generated closed sets with 0-3 node elements or a file removed: real construction outcome + NodeIds listed in the error text vs the model and vs the removal oracle; 400 look-ups (absent / unique / duplicated names, with and without class).",
+         "Trusted: Lean kernel, list model of the pandas set algebra, the parsing of the error text (plain identifiers), driver, harness, generator.",
+         "DESIGN.md section 3 C11"),
+ "C16": ("Lean 4 theorems about a hand model of validate_values_in_df and DATA_TYPES_MAPPING + differential correspondence against /repo on the full class x built-in-type matrix, mixed frames and end-to-end writes",
+         "Machine-checked proof: names_exact (the error names exactly the offending variables), offender_rejected, no_offender_accepted, never_offending (lists, enumerations, non-built-in DataTypes), missing_datatype_rejected, only_variables_with_values. Tie: 26 value classes x 31 DataType names, 200 mixed frames (real validate_values_in_df vs model vs oracle), 20 real graphs with an injected mismatch (ValidationError naming it, no output file).",
+         "Trusted: Lean kernel, list model of the pandas masks, driver, harness. A structure value declaring a built-in DataType is treated as the code treats it (assumption recorded).",
+         "DESIGN.md section 3 C16"),
 }
 PENDING_REASON = "check not built yet in this session; planned as a Lean model + correspondence check (DESIGN.md section 3)"
 
